@@ -21,6 +21,9 @@ type kase struct {
 	Quote  string `json:"quote"`
 	Prefix string `json:"prefix_quoted"`
 	Datum  string `json:"datum_quoted"`
+	Cond   bool   `json:"conditional_prefix,omitempty"`
+	C      bool   `json:"C,omitempty"`
+	D      bool   `json:"D,omitempty"`
 }
 
 type target struct {
@@ -52,6 +55,10 @@ func replay(c *core.Ctx, raw json.RawMessage) error {
 	var k kase
 	if err := json.Unmarshal(raw, &k); err != nil {
 		return err
+	}
+	if k.Cond {
+		checkCond(c, k.Target, util.Unq(k.Prefix), k.C, k.D, util.Unq(k.Datum))
+		return nil
 	}
 	check(c, k.Target, k.Quote, util.Unq(k.Prefix), util.Unq(k.Datum))
 	return nil
@@ -285,7 +292,98 @@ var data = []string{
 	"\"", "'", "<", ">", "`", "\"><script>", " ", "\t", "\n", "\r", "\x00", "\x7f", "é", "日本", "\xff", "\xc3", "😀", "~", "-", "_", "a.b-c_d~e", "+", "*", "!", "$", "(", ")", ",", "[", "]", "{", "}", "|", "^", "x.js", "lib/v1/x.js", "..%2f", "%2f..", "a%2Fb",
 }
 
+// checkCond runs a template whose prefix is chosen by conditionals: either the engine rejects
+// it (ambiguous prefix), or the datum must be confined according to the prefix that is
+// actually rendered.
+func checkCond(c *core.Ctx, ti int, prefixTmpl string, cv, dv bool, datum string) {
+	c.Eval(1)
+	t := targets[ti]
+	text := `<p>` + t.open + t.attr + `="` + prefixTmpl + `{{.X}}"` + t.close + `</p>`
+	k := kase{Target: ti, Quote: `"`, Prefix: util.Q(prefixTmpl), Datum: util.Q(datum), C: cv, D: dv, Cond: true}
+	data := map[string]interface{}{"C": cv, "D": dv, "X": datum}
+	r := tx.Run(text, data)
+	if r.Panic != nil || r.ParseErr != nil {
+		c.Count("skipped", 1)
+		return
+	}
+	if r.ExecErr != nil {
+		c.Hist("conditional_prefix_result", tx.ErrClass(r.ExecErr))
+		return
+	}
+	c.Hist("conditional_prefix_result", "ok")
+	eff, err := tx.RunText(prefixTmpl, data)
+	if err != nil {
+		return
+	}
+	c.DistinctS("cond", fmt.Sprint(ti), prefixTmpl, fmt.Sprint(cv, dv), datum)
+	res := htmltok.Tokenize(r.Out, htmltok.Options{})
+	dec, found, n := "", false, 0
+	for i := range res.Tokens {
+		tk := &res.Tokens[i]
+		if tk.Type != htmltok.StartTag {
+			continue
+		}
+		if n++; n != 2 {
+			continue
+		}
+		for _, a := range tk.Attrs {
+			if a.Name == t.attr {
+				dec, found = htmltok.DecodeAttrValue(a.Value), true
+			}
+		}
+	}
+	pdec := htmltok.DecodeAttrValue(eff)
+	if !found || !strings.HasPrefix(dec, pdec) {
+		c.Violation(k, "conditional prefix %q (C=%v D=%v): decoded value %+q does not start with the rendered prefix %+q", prefixTmpl, cv, dv, dec, pdec)
+		return
+	}
+	f := dec[len(pdec):]
+	if eff == "" {
+		return // the action is at the URL start on this path: sanitized as a whole URL (C02's business)
+	}
+	if rej, why := mustReject(t, eff); rej {
+		c.Violation(k, "conditional prefix %q renders (C=%v D=%v) as %+q, which %s, but the template was accepted: %+q", prefixTmpl, cv, dv, eff, why, r.Out)
+		return
+	}
+	if t.tru || strings.ContainsAny(pdec, "?#") {
+		if !unreservedOrPct(f) || pctDecode(f) != datum {
+			c.Violation(k, "conditional prefix %q renders (C=%v D=%v) as %+q; the datum %+q was emitted as %+q, which is not its full percent-encoding: %+q", prefixTmpl, cv, dv, eff, datum, f, r.Out)
+		}
+	}
+}
+
 func run(c *core.Ctx) {
+	// conditional prefixes
+	branches := []string{"/p/", "/p?q=", "/p#", "https://example.com/", "/a/b?x=1&amp;y=", "", "/p/"}
+	ci := 0
+	for ti := range targets {
+		for _, a := range branches {
+			for _, b := range branches {
+				for _, d3 := range branches[:4] {
+					ci++
+					if !c.Mine(ci) {
+						continue
+					}
+					shapes := []string{
+						"{{if .C}}" + a + "{{else}}" + b + "{{end}}",
+						"{{if .C}}" + a + "{{else}}{{if .D}}" + b + "{{else}}" + d3 + "{{end}}{{end}}",
+						"{{if .C}}{{if .D}}" + a + "{{else}}" + b + "{{end}}{{else}}" + d3 + "{{end}}",
+						"{{if .C}}" + a + "{{else}}" + b + "{{end}}{{if .D}}{{end}}",
+						a + "{{if .C}}" + b + "{{end}}",
+						"{{with .C}}" + a + "{{else}}" + b + "{{end}}{{if .D}}" + d3 + "{{end}}",
+					}
+					for _, sh := range shapes {
+						for _, cv := range []bool{true, false} {
+							for _, dv := range []bool{true, false} {
+								checkCond(c, ti, sh, cv, dv, "v&a=1#f /..")
+							}
+						}
+					}
+				}
+			}
+		}
+	}
+	c.SetExhaustive("conditional prefix shapes x branch prefixes x truth assignments")
 	// systematic part: every target x a structured prefix list x every datum
 	var sys []string
 	for _, s := range []string{"", "https:", "mailto:"} {
@@ -305,7 +403,7 @@ func run(c *core.Ctx) {
 				if !c.Mine(idx) {
 					continue
 				}
-				c.Journal(util.JSON(kase{ti, q, util.Q(p), ""}))
+				c.Journal(util.JSON(kase{Target: ti, Quote: q, Prefix: util.Q(p)}))
 				for _, d := range data {
 					check(c, ti, q, p, d)
 				}
@@ -346,7 +444,7 @@ func run(c *core.Ctx) {
 		}
 		check(c, ti, q, p, d)
 		if i < 3 {
-			c.Sample(kase{ti, q, util.Q(p), util.Q(d)})
+			c.Sample(kase{Target: ti, Quote: q, Prefix: util.Q(p), Datum: util.Q(d)})
 		}
 	}
 }
